@@ -393,3 +393,8 @@ def run(ctx):
              "stream is started the window holds no event of the first")
     from rules import round3
     round3.check_ring_per_stream(ctx, "R16.6")
+    ctx.rule("R16.7", "the ring helpers R16.5 summarises, on concrete rings of four slots, wrapped and not: ring_check "
+             "aborts exactly on a decreasing pair (equal clocks are what a stable sort leaves); rebuild_ring walks from "
+             "start to the tail inside [0, size) and stores consecutive events")
+    from rules import round4
+    round4.check_ring_helpers(ctx, "R16.7")
